@@ -62,6 +62,11 @@ THEOREMS = (
     "multitreeOK_of_validate", "multitreeOK_of_validateMultitree", "mtVisit_sublist", "toDoc_packGraph",
     "wrappedPacks_ok_of_validate", "validatedB_iff",
     # when does selection succeed; the headline on validated documents
+    # the object-loop validator of C14 => Acyclic (fuel of objectPathsFrom suffices); the state enumeration as chains
+    "acyclic_of_validate", "validateObjectLoops_of_validate", "objLoopDfs_chains", "chains_short_of_loops",
+    "rank_of_chains_short", "mem_specStates_none_iff", "select_eq_decl_chain",
+    # re-ordering the complementary-object reference list of an audioObject: the same result (equality)
+    "select_perm_comps", "CompPerm.selectComplementary", "CompPerm.specStates", "CompPerm.symm",
     "select_ok_iff", "select_ok_iff_of_multitree", "select_eq_decl_validated", "itemsOfState_ok_iff",
     "itemsOfState_accepted_ok_iff", "itemsOfState_error_cases", "itemsOfPack_ok_iff", "singleItem_ok_iff",
     "flatMapE_error_mem",
@@ -102,8 +107,31 @@ def run_real(b):
             items = select_rendering_items(b.adm, audio_programme=b.given,
                                            selected_complementary_objects=list(b.selected))
         except Exception as e:  # classified and compared with the model's error kind
-            return ("err", classify(e))
+            return ("err", validation_site(e) or classify(e))
         return ("ok", G.item_records(items))
+
+
+def validation_site(e):
+    """`validate:<function containing the raise statement>` when an AdmError was raised inside `validate_structure`
+    (compared with the raise site `AdmKind.site` of the C14 model run by `Adm.selectValidated`), else None"""
+    from ear.fileio.adm.exceptions import AdmError
+    if not isinstance(e, AdmError):
+        return None
+    names, tb = [], e.__traceback__
+    while tb is not None:
+        names.append(tb.tb_frame.f_code.co_name)
+        tb = tb.tb_next
+    if "validate_structure" not in names:
+        return None
+    return "validate:" + names[-1]
+
+
+def same_error(model, real):
+    """model `err` payload vs the real classification: validation-stage errors agree when the function of the raise
+    statement is the same (the model prints the qualified name, the traceback gives the innermost name)"""
+    if model.startswith("validate:") and real.startswith("validate:"):
+        return model.split(":", 1)[1].split(".")[-1] == real.split(":", 1)[1]
+    return model == real
 
 
 def real_wf(b, maps):
@@ -161,7 +189,9 @@ class C06(Spec):
         "twice by its dfs; proved from the C14 model: multitreeOK_of_validate) and that the AllocationPacks can be built "
         "(wrappedPacks_ok_of_validate); multitreeOK, and validateMultitree / validateStructure on toDoc, are evaluated "
         "by the driver and compared with the real functions on every generated document and on injected diamonds / "
-        "pack loops / channel-less packs",
+        "pack loops / channel-less packs / audioObject loops / duplicated alternativeValueSet references / inconsistent "
+        "HOA normalization; an R request executes Adm.selectValidated (validation model, then selection) and the "
+        "error stage + raise-site function of rejected documents is compared with the real code",
         "pack_allocation.allocate_packs is the C07 model (Earverif/Model/PackAlloc.lean, imported); identities of "
         "AllocationPack objects are modelled as 3*root+variant, of AllocationTrackUID objects as their position",
         "harness/c06_gen.py: serialisation of the real ADM by index (unused common-definition packs/channels are "
@@ -180,7 +210,9 @@ class C06(Spec):
         "complementary groups and selections x 1..6 formats (Objects/DirectSpeakers/HOA; mono, multichannel, nested "
         "packs 2-3 deep; BS.2094 common-definition packs; direct and encode/decode Matrix packs in their 5 usages) x silent tracks x track->trackFormat / track->channelFormat "
         "referencing x alternativeValueSets x CHNA-only and programme-less modes; a few scenes get a channel-less pack, "
-        "or (validation predicates only, outside the property's quantifier) a diamond or a pack loop; every scene is also re-declared in 3 "
+        "or (outside the property's quantifier: compared are the validation predicates and the error stage / raise "
+        "site) a diamond, a pack loop, an audioObject loop, a duplicated alternativeValueSet reference or an HOA "
+        "channel with another normalization; every scene is also re-declared in 3 "
         "random orders; a case is one (scene, declaration order); non-trivial = at least one item selected; "
         "distinct by canonical item list"
     )
@@ -277,8 +309,9 @@ class C06(Spec):
                     # validation predicates of the model (hypotheses of the C06 theorems) vs the real validation
                     wlines.append(" ; ".join(["W"] + s[0].split(" ; ")[1:]))
                     wmetas.append((scene, vseeds[k], real_wf(b, s[1]), real))
-                if scene["inject"] in G.STRUCTURE_INJECTIONS[:2]:
-                    continue  # rejected by validate_structure: the selection model assumes validated documents
+                # documents that validate_structure rejects go through the model too: an `R` request runs
+                # Adm.selectValidated (C14 model of validate_structure on toDoc, then the selection); compared:
+                # the stage and the function of the raise statement
                 ctx.count("declaration-order:" + ("as-built" if k == 0 else "reordered" if k < 3 else "reordered+children"))
                 canon = ("ok", G.canon_index(real[1], s[1])) if real[0] == "ok" else real
                 lines.append(s[0])
@@ -322,7 +355,7 @@ class C06(Spec):
             elif out == "err unsupported":
                 ctx.count("model-unsupported(skipped)")
             elif out.startswith("err "):
-                if canon[0] == "err" and canon[1] == out[4:]:
+                if canon[0] == "err" and same_error(out[4:], canon[1]):
                     ctx.validated()
                     ctx.count("agree-error:" + out[4:])
                 else:
@@ -363,6 +396,12 @@ class C06(Spec):
                 inj = "pack-loop"
             elif r < 0.19:
                 inj = "empty-pack"
+            elif r < 0.21:
+                inj = "object-loop"
+            elif r < 0.23:
+                inj = "avs-dup"
+            elif r < 0.25:
+                inj = "hoa-attr"
             sc = G.gen_scene(ctx.rng, inject=inj)
             if inj:
                 ctx.count("scene-with-injected-error:" + inj)
@@ -518,6 +557,20 @@ REGISTRY = dict(
     "validate_structure => multitreeOK (the C06 predicate's node list is a sublist of the node list of C14's dfs, "
     "mtVisit_sublist + C14 mtDfs_ok); wrappedNonempty is NOT implied (example exEmptyPackDoc: validated, channel-less "
     "pack, selection works). "
+    "HONESTY of (0): the PackItemsOK half of StateAllocOK in select_ok_iff is literally 'the model's "
+    "getPackFormatPath / getPathParam / hoaMetaOf / getSingleParam return .ok' - an unfolding of the model (each with "
+    "its own _ok_iff characterisation), NOT derived from validation; the third error disjunct of "
+    "select_eq_decl_validated leaves the error value e free (names the situation, says nothing about which error); "
+    "the 'declarative' side re-uses model functions: specStates = the model's fuel-cut objectPathsFrom after the "
+    "model's selectProgramme / selectComplementary, extraOf / getImportance sit inside declSingle / declHoa, "
+    "thePackPath is the head of the model's packPathsFrom (fuel = number of packs, sufficiency under multitreeOK not "
+    "proved). What IS now derived: acyclic_of_validate - Acyclic (the hypothesis of mem_objectPathsFrom_iff / "
+    "mem_specStates_iff that makes the fuel of objectPathsFrom sufficient) follows from C14's object-loop validator "
+    "objLoopDfs through toDoc (a dfs that returned from every object saw only duplicate-free chains, pigeonhole, "
+    "longest-chain rank; refsInRange stays a hypothesis), and select_eq_decl_chain: on a validated document a state "
+    "is in specStates iff it is (chosen programme, one of its contents, a chain of sub-object references from one of "
+    "that content's objects) - or a chain from a root object when there is no programme - that avoids ignored "
+    "objects; no fuel, no model function in it (the ORDER of the enumeration remains the model's). "
     "(1) select_eq_decl: on a document that passes the multitree "
     "check, whenever selection returns, items = [item | state in specStates (programme contents / root objects / "
     "object paths avoiding ignored complementary objects; select_eq_spec, select_once_per_path, specStates_nodup, "
@@ -548,10 +601,17 @@ REGISTRY = dict(
     "select_programme_order_independent, select_renumber_contents(_rename) / select_renumber_programmes(_rename) "
     "(re-numbering audioContents / audioProgrammes with distinct ids: the same result - items in the same order with "
     "the index renamed, or the same error); chna_only_all_tracks, no_programme_all_roots. "
+    "select_perm_comps: re-ordering an audioObject's complementary-object reference list gives the SAME result "
+    "(equal items in the same order, or the same error; _select_complementary_objects looks at a group only through "
+    "membership tests and a count). "
     "PARTIAL: (a) each kind of re-declaration has its own theorem (select_perm_partial is named _partial because it "
-    "covers the content-part child lists only); one theorem for an arbitrary simultaneous re-declaration (their "
-    "composition) is not stated, and re-ordering the sub-pack reference list of an audioPackFormat is not covered by "
-    "any of them (correspondence + search only); (b) the error branch does not classify the non-allocation errors "
+    "covers the content-part child lists only); they are one-directional (success of the original => success of "
+    "the re-declared document with permuted items) except select_perm_formats and select_perm_comps, and they cannot "
+    "be chained into one theorem for an arbitrary simultaneous re-declaration: that refsInRange / multitreeOK / "
+    "NoDupRefs of the permuted document hold again is not proved. NOT covered by any theorem (correspondence + "
+    "search only): re-ordering the sub-pack reference list of an audioPackFormat, the channel-reference list of a "
+    "non-HOA audioPackFormat, the alternativeValueSet lists (getAvs takes the LAST match), a Matrix block's "
+    "coefficient list and a pack's encodePackFormats; (b) the error branch does not classify the non-allocation errors "
     "further (that OutputOK / PackItemsOK hold on validated documents - i.e. that such errors cannot happen - is C14's "
     "no-internal-error property, proved there for its own model and not transported here). "
     "The model is tied to the code "
@@ -561,7 +621,13 @@ REGISTRY = dict(
     "compared in order for the document and 3 re-declarations; multitreeOK / wrappedNonempty are compared with "
     "_validate_pack_channel_multitree / the real AllocationPacks, and the C14 model's validateMultitree / "
     "validateStructure evaluated on toDoc of the same serialised document with the real "
-    "_validate_pack_channel_multitree / validate_structure (also on injected diamonds, pack loops, channel-less packs); "
+    "_validate_pack_channel_multitree / validate_structure (also on injected diamonds, pack loops, channel-less packs, "
+    "audioObject loops, duplicated alternativeValueSet references, an HOA channel with another normalization); "
+    "every R request of the driver runs Adm.selectValidated (Model/SelectValidated.lean: the left-hand side of "
+    "select_ok_iff = C14 model of validate_structure on toDoc, then the selection), also for documents that "
+    "validation rejects: compared with the real select_rendering_items are then the stage and the function "
+    "containing the raise statement (AdmKind.site vs the innermost traceback frame; counts agree-error:validate:* in "
+    "the evidence); Matrix block attribute faults are not injected here (C14's injector covers them); "
     "the direct predicate compares the real items with "
     "an independent comprehension oracle and across re-declarations as multisets.",
     note="Trusted: Lean kernel; hand transliteration of select_items.py/utils.py/hoa.py/matrix.py + C07 allocator model "
